@@ -20,7 +20,7 @@
 EXTENDS Selection
 
 \* D additionally has: argof [1..n -> 0..np] (which DAG parameter the node takes, 0 = none),
-\* np, defaults (sequence, -1 = no default)
+\* np, defaults (sequence, -1 = no default), off (deactivated call sites), nonefn (functions returning None)
 SetupOf(D, S) == S \cap SetupNodes(D)
 DoneSet(D, v) == {k \in Nodes(D) : v[k] # 0}
 
@@ -32,7 +32,7 @@ FailSentinel == 99
 Failing(D, args, S) == {k \in S : D.argof[k] # 0 /\ Effective(D, args)[D.argof[k]] = FailSentinel}
 
 \* nodes an execution of selection S on an instance with setup values v must enter
-Runs(D, S, v) == S \ DoneSet(D, v)
+Runs(D, S, v) == (S \ DoneSet(D, v)) \ D.off          \* deactivated call sites are never entered
 
 \* a failing execution enters a subset of the nodes it would run, never a dependent of a failing node
 FailedRunOK(D, S, v, F, e) ==
